@@ -120,6 +120,26 @@ def check_fresh(ctx, more=False):
             return
 
 
+def check_closed(ctx):
+    """a stream that reports itself closed while its halves still emit, a small output channel, a late consumer"""
+    trials = 300 if ctx.tier == "quick" else 6000
+    for cap in (0, 1, 4):
+        rc, out = ctx.vh("vh-api", ["emit-closed", str(trials), "2", "6", str(cap)], timeout=900)
+        try:
+            o = json.loads(out.strip().split("\n")[-1])
+        except Exception:
+            ctx.broken.append("emit-closed failed: " + out[-300:])
+            return
+        ctx.count_case(("emit-closed", trials, cap), True, "emit-closed")
+        ctx.cov.setdefault("closed_stream", {})[str(cap)] = o
+        if o["bad"]:
+            ctx.violation({"kind": "emit-closed", "args": [trials, 2, 6, cap], "observed": o,
+                           "explanation": "the stream reports itself closed after its first item while two goroutines still emit into a channel of this "
+                                          "capacity whose consumer starts late: every emitted item must arrive, with the indices 0..N-1",
+                           "how": "vh-api emit-closed %d 2 6 %d" % (trials, cap)})
+            return
+
+
 def check_multi(ctx):
     """several streams sharing one AppStats, with a concurrent statistics dump"""
     ns, g, per, nd = (6, 2, 8000, 300) if ctx.tier == "quick" else (8, 2, 100000, 3000)
@@ -152,6 +172,7 @@ def run(ctx):
     check_stress(ctx)
     check_multi(ctx)
     check_fresh(ctx, more="Api/EmitTie.v" in failed)
+    check_closed(ctx)
     if "Api/EmitTie.v" in failed and not ctx.violations:
         # the source's Emit is no longer the atom sequence the theorem is about: show the model's
         # witness when the lock is simply gone (with statements the translator does not know, the
